@@ -50,7 +50,7 @@ var c07Docs = []string{
 	"&copy; 日本語の\n文章 です [k](/k&#x20AC;z) ~~~\n\n``` i&#110;fo\nx\n```\n\n## Heading two\n\n## Heading two\n\nSetext\n======\n\n![img](/i.png \"t\") <http://auto.link> <me@x.yz>\n\n***\n\n* * *\n\n1) one\n2) two\n\n   para in item\n\nline one  \nline two\\\nline three\n\n<!-- comment -->\n\n<?php echo 1; ?>\n\n[Ünï]: /u\n\n[ünï] [ÜNÏ][]\n",
 	"&amp; ![m](/m&#233; \"&#233;\") [o](<&#111;>)\n\n> - nested\n>   > deep `x`\n>\n> 1. n\n\n~~~~ info\n~~~\n~~~~\n\n| x |\n|---|\n\n*a **b** _c_* __d__ ~~e~~ \\* \\\\ &#0; &nosuch;\n\n[a][b] [b] [c]()\n\n[b]: <u v> (t)\n\nApple\n:   Pomaceous\n\n    para\n\nOrange\n:   Citrus\n\nx[^n]\n\n[^n]: n1\n\n    n2\n",
 	"<DIV>\nd\n</DIV>\n\n<Table>\n<TR><TD>a</TD></TR>\n</Table>\n\n<SECTION>\n\n<Pre>\nx\n</Pre>\n\n<sCRIPT>\ny\n</sCRIPT>\n\n<Ul>\n<LI>z</LI>\n</Ul>\n\n<H1>t</H1>\n\n<BlockQuote>\nq\n</BlockQuote>\n\n<Details>\n<Summary>s</Summary>\n</Details>\n\n<?PHP x ?>\n\n<!DOCTYPE html>\n\n<![CDATA[\nc\n]]>\n\ntext <Span CLASS=\"x\">i</Span> <Br/> &AMP; &Aacute; &aacute;\n",
-	"plain &amp; simple [p](/&#112;&#x71;)\n\n# T {.c k=v}\n\ntext\n",
+	"plain &amp; simple [p](/&#112;&#x71;)\n\n# T {.c k=v}\n\ntext\n\n## U {data-x=\"say \\\"hi\\\" \\\\ there\" title='it\\'s' lang=\"en\"}\n\nSetext {data-y=\"a \\\"b\\\" c\" .k}\n---\n\n### V {#v data-z=\"\\\"\\\"\" data-w=\"plain value\"}\n",
 	// inline constructs that continue across line endings (labels, link text, titles, destinations in
 	// angle brackets, code spans, raw HTML, emphasis), in paragraphs, quotes and list items
 	"&amp; [text one][multi\nline label] and [second\ntext][multi line\nlabel] [multi\nline label][] [multi\n  line   label]\n\n[multi line label]: /mll 'ti\ntle'\n\n> [q text][quoted\n> label] `code\n> span` <b a='x\n> y'> *em\n> ph*\n\n[quoted label]:\n  /ql\n  \"t\"\n\n- [l\n  m](/u 't\n  u') [r][item\n  label] ![alt\n  text](/i)\n\n[item label]: </il> (t)\n\n[un\ndefined label] [x][no\nsuch]\n\n" +
